@@ -16,7 +16,14 @@ API (everything else in this module is private):
   ``run_reference_many / run_ort_many(proto, input_sets) -> list[RunResult]`` build the evaluator once
 * ``check(proto) -> None | str``   ``onnx.checker.check_model`` (default mode); the message if rejected
 * ``same_outputs(a, b) -> None | str``   exact positional comparison (dtype, shape, values; NaN == NaN)
-* ``required_inputs(proto)``, ``to_proto(model)``, ``checker_class(message)``, ``FEATURES``, ``EVALUATORS``
+* ``required_inputs(proto)``, ``to_proto(model)``, ``checker_class(message)``, ``FEATURES``, ``EVALUATORS``,
+  ``RUNNERS`` (evaluator name -> ``run_*_many``)
+
+Evaluator discipline: an evaluator either returns outputs or a structured 'cannot run'
+(``RunResult.reason``).  Things an evaluator is known to get *silently* wrong are refused up front by
+a static gate (reference evaluator: function overloads, Loop bodies with extra inputs; onnxruntime:
+a value listed twice as subgraph output) and onnxruntime runs every input set twice and refuses to
+answer when the two runs differ.  Compare P(M) with M only through an evaluator that ran both.
 
 Every random decision derives from one integer seed (``info["seed"]``): the base structure uses
 ``Random(f"{seed}:base")`` and every planted *feature* its own ``Random(f"{seed}:{feature}")``, so
@@ -567,7 +574,6 @@ class _Builder:
         for dt, shape in in_types:
             self.add_input(sc, dt, shape, self.fresh("fx"))
         outs = body_hook(sc) if body_hook is not None else None
-        uses_nested = False
         if outs is None:
             x = sc.inputs[0]
             cur = x
@@ -579,9 +585,7 @@ class _Builder:
                 cf = self.emit(sc, "Cast", [c], {"to": int(F32.value)}, [(F32, ())])[0]
                 cur = self.emit(sc, "Sub", [cur, cf], None, [(F32, (2, 3))])[0]
             if "fn_nested" in self.feats and self.fns and rng.random() < 0.8:
-                before = len(sc.nodes)
                 self.gen_call(sc, rng, caller_attrs=attrs)
-                uses_nested = len(sc.nodes) > before
             for _ in range(rng.randint(1, 3)):
                 self.plain_op(sc, rng)
             locals_ = [t for t in sc.pool if t.kind == "node" and t.dt in _NUMERIC]
@@ -592,8 +596,6 @@ class _Builder:
                 extra = rng.choice(locals_)
                 if extra is not outs[0]:
                     outs.append(extra)
-        else:
-            uses_nested = any(n.domain in (FN_DOMAIN, FN_DOMAIN2) for n in sc.nodes)
         opsets = {"": self.opset}
         for n in sc.nodes:
             if n.domain:
@@ -613,7 +615,6 @@ class _Builder:
             fn.function.doc_string = "function doc"
         self.functions.append(fn.function)
         self.model_opsets[domain] = 1
-        del uses_nested
         return fn
 
     def gen_call(self, sc: _Scope, rng, fn: _Fn | None = None, caller_attrs: dict | None = None,
@@ -1362,6 +1363,15 @@ def _reference_gate(model_proto) -> str | None:
     if any(f.overload for f in model_proto.functions) or any(c > 1 for c in names.values()):
         # probe: ReferenceEvaluator resolves calls by (domain, name) only - every overload runs the last body
         return "ref:gate:function-overloads"
+    bodies = [model_proto.graph.node] + [f.node for f in model_proto.functions]
+    for nodes in bodies:
+        for n in list(nodes) + [x for g in _subgraphs(nodes) for x in g.node]:
+            if n.op_type == "Loop" and n.domain == "":
+                body = next((a.g for a in n.attribute if a.name == "body"), None)
+                if body is not None and len(body.input) != max(len(n.input), 2):
+                    # probe: body inputs beyond (iter, cond, carried...), e.g. initializer-backed ones added by
+                    # AddInitializersToInputsPass: usually a TypeError, sometimes silently different results
+                    return "ref:gate:loop-body-extra-inputs"
     return None
 
 
